@@ -5,8 +5,8 @@
     returns the double-width product (C03).  The one-limb branch of mul_mod_special is proved GIVEN [recip_ok]
     (the 64-bit Newton reciprocal of 2^64 - c is exact: C02).  mul_mod_vartime / MulMod are tied to the spec
     GIVEN the product (C03) and the wide Knuth remainder (C02); mul_mod (Montgomery, C08) is value-level in the model. *)
-From CB Require Import Model.Limbs Model.AddSub Model.Mul Model.Div Model.ModArith
-  Proofs.WordP Proofs.LimbsP Proofs.AddSubP Proofs.DivP Proofs.ModArithP Proofs.ModArithTablesP.
+From CB Require Import Model.Limbs Model.AddSub Model.Mul Model.Div Model.ModArith Model.Bits Model.Halve
+  Proofs.WordP Proofs.LimbsP Proofs.AddSubP Proofs.DivP Proofs.ModArithP Proofs.ModArithTablesP Proofs.HalveP.
 From Coq Require Import ZArith List String.
 Open Scope Z_scope.
 Notation length := List.length.
@@ -211,4 +211,45 @@ Example C07_nonvacuous :
   add_mod_special [MAXW - 5; MAXW] [MAXW - 5; MAXW] 3 = [MAXW - 8; MAXW] /\
   mul_mod_special false uint_split_mul [0; MAXW - 1; MAXW] [0; MAXW - 1; MAXW] MAXW = Some [1; 2; 1] /\
   run_op7 ops_modarith_spec "uint.add_mod" false [[5]; [6]; [7]] = Val [[4]].
+Proof. vm_compute. repeat split. Qed.
+
+(* ---------------- modular halving (Model/Halve.v: crate::modular::div_by_2, fixed and boxed) ---------------- *)
+
+(** for an odd modulus m and a canonical a < m the result h is canonical and 2 h = a (mod m); every limb count
+    (Z.of_nat (length a) < 2^32: bit indices are u32 in the code) *)
+Theorem C07_div_by_2_halves : forall a m,
+  wf a -> wf m -> length m = length a -> a <> [] -> Z.of_nat (length a) < U32 ->
+  Z.odd (eval m) = true -> eval a < eval m ->
+  let r := div_by_2 a m in
+  wf r /\ length r = length a /\ 0 <= eval r < eval m /\ (2 * eval r) mod eval m = eval a.
+Proof. exact div_by_2_halves. Qed.
+Print Assumptions C07_div_by_2_halves.
+
+(** the exact value, including moduli with a + m >= 2^BITS (the carry re-inserted as the top bit) *)
+Theorem C07_div_by_2_value : forall a m,
+  wf a -> wf m -> length m = length a -> a <> [] -> Z.of_nat (length a) < U32 ->
+  let r := div_by_2 a m in
+  wf r /\ length r = length a /\
+  (eval a + eval m < 2 * Bn (length a) -> eval r = spec_half (eval a) (eval m)).
+Proof. exact div_by_2_correct. Qed.
+Print Assumptions C07_div_by_2_value.
+
+(** the boxed in-place variant (masked conditional_adc_assign, shr1_assign, set_bit) returns the same limbs *)
+Theorem C07_div_by_2_boxed_is_fixed : forall a m,
+  wf a -> wf m -> length m = length a -> a <> [] -> Z.of_nat (length a) < U32 ->
+  div_by_2_boxed a m = div_by_2 a m.
+Proof. exact div_by_2_boxed_eq. Qed.
+Print Assumptions C07_div_by_2_boxed_is_fixed.
+
+Theorem C07_tables_agree_halve : forall dbg k a, Forall wf a -> In k ["uint.div_by_2"; "boxed.div_by_2"]%string ->
+  Z.of_nat (ln 0 a) < U32 ->
+  match lookup k ops_halve_spec with Some f => f dbg a | None => Unsupported end <> Unsupported ->
+  match lookup k ops_halve_model with Some f => f dbg a | None => Unsupported end =
+  match lookup k ops_halve_spec with Some f => f dbg a | None => Unsupported end.
+Proof. exact halve_tables_agree. Qed.
+Print Assumptions C07_tables_agree_halve.
+
+Example C07_halve_nonvacuous :
+  div_by_2 [1; 0] [MAXW; MAXW] = [0; 2 ^ 63] /\ div_by_2_boxed [3; 0] [MAXW; MAXW] = [1; 2 ^ 63] /\
+  div_by_2 [6; 0] [7; 0] = [3; 0] /\ div_by_2 [5; 0] [7; 0] = [6; 0].
 Proof. vm_compute. repeat split. Qed.
